@@ -1,0 +1,33 @@
+//go:build verif
+
+package geom
+
+// Straight-line compositions of the real TWKB writer and parser functions;
+// compiled only with the verif tag.  Their contracts (in
+// verif_contracts_twkbw.go) are the encode/decode round-trip lemmas for the
+// header bytes.
+
+func verifTWKBTypePrecRoundTrip(kind twkbGeometryType, precXY int) (twkbGeometryType, int, error) {
+	w := twkbWriter{precXY: precXY}
+	w.writeTypeAndPrecision(kind)
+	p := newTWKBParser(w.twkbHeaders)
+	err := p.parseTypeAndPrecision()
+	return p.kind, p.precXY, err
+}
+
+func verifTWKBExtPrecRoundTrip(hasZ, hasM bool, precZ, precM int) (bool, bool, int, int, CoordinatesType, int, error) {
+	w := twkbWriter{hasZ: hasZ, hasM: hasM, precZ: precZ, precM: precM}
+	w.writeExtendedPrecision()
+	p := newTWKBParser(w.twkbHeaders)
+	err := p.parseExtendedPrecision()
+	return p.hasZ, p.hasM, p.precZ, p.precM, p.ctype, p.dimensions, err
+}
+
+func verifTWKBMetadataRoundTrip(hasExt, hasSize, hasBBox, hasIDs bool, kind twkbGeometryType) (bool, bool, bool, bool, bool, error) {
+	w := twkbWriter{hasExt: hasExt, hasSize: hasSize, hasBBox: hasBBox, hasIDs: hasIDs}
+	w.writeInitialHeaders()
+	p := newTWKBParser(w.twkbHeaders)
+	p.kind = kind
+	err := p.parseMetadataHeader()
+	return p.hasExt, p.hasSize, p.hasBBox, p.hasIDs, p.isEmpty, err
+}
